@@ -51,7 +51,19 @@ _h('mut_reshape', 'h_mut_reshape', 'mutable_reshape to every 2-d shape with the 
 _h('mut_ref', 'h_mut_ref', 'mutable_ref; ' + MV, quick=[{}], unwind=14)
 _h('mut_slice', 'h_mut_slice', 'mutable_slice of a hybrid 2-d source with (start,stop,step) per axis, 0 <= start < stop <= extent, step 1..3; contents/index/value symbolic', quick=[{}], unwind=14)
 _h('mut_flatten_dyn', 'h_mut_flatten_dyn', 'mutable_flatten of ndarray_t<std::vector, std::vector> 2-d, shape a per-query constant', quick=[], thorough=[dict(SH0=2, SH1=3, _timeout=1800, _mem_gb=14)], unwind=14, optional=True)
-PENDING_FINDINGS = []
+# BEGIN PENDING_FINDINGS (generated from the replay files by the builder; one entry per harness that uses an exclusion macro)
+PENDING_FINDINGS = [
+ dict(id='F-C20-dynamic-assign-shape-mismatch', harness='dynamic_assign_from', exclude_define='KF_C20_DYNAMIC_ASSIGN_SHAPE_MISMATCH', witness_config={'MAXE': 3},
+      witness_inputs=['0x2', '0x1', '0x2', '0x2', '0xffffffff00000002', '0xffffffff00000001', '0xffffffffffffffff', '0xffffffffffffffff', '0xffffffffffffffff', '0xffffffffffffffff', '0xffffffffffffffff', '0xffffffffffffffff'],
+      what='NDEBUG: dynamic_ndarray = array of another shape keeps the old shape and copies numel_ elements, reading outside the source'),
+ dict(id='F-C20-colmajor-strides', harness='hist_kind1', exclude_define='KF_C20_COLMAJOR_STRIDES', witness_config={'K': 2, 'MAXE': 4, 'KIND': 1},
+      witness_inputs=['0x4', '0x0', '0x4', '0xffffffffffffffff', '0x1', '0x1', '0x3', '0x4', '0x3', '0x0', '0x3', '0x0', '0x1', '0x2', '0xffffffff00000000', '0x2', '0x3', '0x3', '0x3', '0x3', '0x0', '0x3', '0x0', '0x0', '0x0', '0x0', '0x0', '0x0'],
+      what='column_major ndarray_t::strides() returns the row-major strides_ member (the layout lives only in offset_)'),
+ dict(id='F-C20-colmajor-strides', harness='hist_kind8', exclude_define='KF_C20_COLMAJOR_STRIDES', witness_config={'K': 3, 'MAXE': 4, 'PRE': 1, 'KIND': 8},
+      witness_inputs=['0x0', '0x0', '0x2', '0xffffffffffffffff', '0x2', '0x2', '0x1', '0x4', '0x3', '0x3', '0x3', '0x0', '0x1', '0x2', '0xffffffffffffffff', '0x1', '0x4', '0x1', '0x4', '0x3', '0x3', '0x3', '0x4', '0x0', '0x4', '0xffffffffffffffff', '0x4', '0x4', '0x4', '0x4', '0x3', '0x2', '0x3', '0x1', '0x1', '0x1', '0x1', '0x0', '0x0'],
+      what='column_major ndarray_t::strides() returns the row-major strides_ member (the layout lives only in offset_)'),
+]
+# END PENDING_FINDINGS
 OUTSIDE = [
  'arrays backed by std::vector (ndarray_t<std::vector,std::vector> row/column-major, legacy dynamic_ndarray, cast to kind::dynamic, mutable_flatten of a dynamic array): '
  'no verdict - CBMC runs out of memory (8.5-9 GB, 50-150 s) at the smallest configuration (one symbolic step from the default state, <= 4 cells; or a constant (2,3) shape with symbolic data). '
